@@ -107,6 +107,27 @@ func unwrap(v interface{}) interface{} {
 // PrepareQuery checks that the given selectionSet matches the schema typ, and
 // parses the args in selectionSet
 func PrepareQuery(ctx context.Context, typ Type, selectionSet *SelectionSet) error {
+	return prepareQuery(ctx, typ, selectionSet, make(map[preparedKey]bool))
+}
+
+// preparedKey identifies one (type, selection set) pair checked by PrepareQuery.
+type preparedKey struct {
+	typ          Type
+	selectionSet *SelectionSet
+}
+
+// prepareQuery implements PrepareQuery. A fragment that is spread several
+// times shares one *SelectionSet, so each (type, selection set) pair is checked
+// only once; otherwise nested fragments that spread each other twice take time
+// exponential in the size of the query.
+func prepareQuery(ctx context.Context, typ Type, selectionSet *SelectionSet, prepared map[preparedKey]bool) error {
+	if selectionSet != nil {
+		key := preparedKey{typ: typ, selectionSet: selectionSet}
+		if prepared[key] {
+			return nil
+		}
+		prepared[key] = true
+	}
 	switch typ := typ.(type) {
 	case *Scalar:
 		if selectionSet != nil {
@@ -181,22 +202,22 @@ func PrepareQuery(ctx context.Context, typ Type, selectionSet *SelectionSet) err
 
 			selection.ParentType = typ.Name
 
-			if err := PrepareQuery(ctx, field.Type, selection.SelectionSet); err != nil {
+			if err := prepareQuery(ctx, field.Type, selection.SelectionSet, prepared); err != nil {
 				return err
 			}
 		}
 		for _, fragment := range selectionSet.Fragments {
-			if err := PrepareQuery(ctx, typ, fragment.SelectionSet); err != nil {
+			if err := prepareQuery(ctx, typ, fragment.SelectionSet, prepared); err != nil {
 				return err
 			}
 		}
 		return nil
 
 	case *List:
-		return PrepareQuery(ctx, typ.Type, selectionSet)
+		return prepareQuery(ctx, typ.Type, selectionSet, prepared)
 
 	case *NonNull:
-		return PrepareQuery(ctx, typ.Type, selectionSet)
+		return prepareQuery(ctx, typ.Type, selectionSet, prepared)
 
 	default:
 		panic("unknown type kind")
